@@ -9,7 +9,7 @@ use std::f64::consts::PI;
 
 pub fn monitor() -> Monitor {
   Monitor { id: "C16",
-    rule: "(a) every cell of depths <= 7 (quick) / <= 9 (thorough) + class-sampled cells of every deeper depth: true largest centre-to-vertex distance (reference geometry) vs largest_center_to_vertex_distance at the centre and at 2 random interior positions of the cell; (b) cones (centre from the sphere/pole/seam/transition generators, radius 0.02..40 cell sizes, capped at pi/2): the *_with_radius bound (single and multi-depth forms) vs the true value of every cell whose centre is within the radius — cells found by hashing sample points of the cone (brute force over all cells for depth <= 4); (c) best_starting_depth: monotone, equal to a linear scan of the thresholds located by bisection, refusal of radii >= the depth-0 limit consistent with has_best_starting_depth, and containment of 96 boundary points of the cone in the centre cell + neighbours for radii at (1-{1e-12..0.3}) x threshold with centres aimed at seams, poles, transition latitude; plus, per depth, 6 witness cones built on the thinnest cell of the depth found by the reference geometry (width W): centre just outside one edge, radius W(1 +- {3e-4,3e-3,3e-2}), probe through the nearest point of the opposite edge. Non-trivial = cell on a base-cell border/corner, cone containing a pole or straddling the transition latitude / LAT_OF_SQUARE_CELL, radius within 5% of a threshold.",
+    rule: "(a) every cell of depths <= 7 (quick) / <= 9 (thorough) + class-sampled cells of every deeper depth: true largest centre-to-vertex distance (reference geometry) vs largest_center_to_vertex_distance at the centre and at 2 random interior positions of the cell; (b) cones (centre from the sphere/pole/seam/transition generators, radius 0.02..40 cell sizes, capped at pi/2): the *_with_radius bound (single and multi-depth forms) vs the true value of every cell whose centre is within the radius — cells found by hashing sample points of the cone (brute force over all cells for depth <= 4); (c) best_starting_depth: monotone, equal to a linear scan of the thresholds located by bisection, refusal of radii >= the depth-0 limit consistent with has_best_starting_depth, and containment of 96 boundary points of the cone in the centre cell + neighbours for radii at (1-{1e-12..0.3}) x threshold with centres aimed at seams, poles, transition latitude; plus, per depth, 6 witness cones built on the thinnest cell of the depth found by the reference geometry (width W): centre just outside one edge, radius W(1 +- {3e-4,3e-3,3e-2}) and the largest radius still answered with that depth (centre 1e-6 W outside), probe through the nearest point of the opposite edge. Non-trivial = cell on a base-cell border/corner, cone containing a pole or straddling the transition latitude / LAT_OF_SQUARE_CELL, radius within 5% of a threshold.",
     assumptions: &["reference cell geometry; Layer::hash (C01) and Layer::neighbours (C04) for the containment claim", "distances carry an absolute slack of 1e-15 rad and a relative one of 1e-12"],
     run, replay }
 }
@@ -40,7 +40,7 @@ fn run(ctx: &mut Ctx, extra: &mut BTreeMap<String, String>) {
     }
     for _ in 0..n_cones / shards { let (case, _) = gen_cone(&mut rng); judge_cone(c, &case); }
     for _ in 0..n_bsd / shards { let case = gen_bsd(&mut rng, thr_ref); judge_bsd(c, &case, thr_ref); }
-    if k == 0 { bsd_table(c, thr_ref); for case in witness_cases() { judge_bsd(c, &case, thr_ref); } }
+    if k == 0 { bsd_table(c, thr_ref); for case in witness_cases(thr_ref) { judge_bsd(c, &case, thr_ref); } }
   });
 }
 
@@ -130,7 +130,7 @@ pub fn judge_cone(ctx: &mut Ctx, c: &Case) {
 /// width W (distance p-q between two opposite edges). Centre: just outside the cell, at m.W/3 from p on the side away from q;
 /// radius W(1+m) (the cone crosses the whole thin cell and overshoots its opposite edge by 2mW/3: it leaves the 3x3 block at depth d,
 /// so best_starting_depth must answer a shallower depth) and W(1-m) (stays inside). The probe towards q is added to the 96 bearings.
-pub fn witness_cases() -> Vec<Case> {
+pub fn witness_cases(thr: &[f64]) -> Vec<Case> {
   let mut v = Vec::new();
   for &(d, wb, pb, qb) in super::bsd_witness::BSD_WITNESS.iter() {
     let w = f64::from_bits(wb); let (p, q) = ((f64::from_bits(pb[0]), f64::from_bits(pb[1])), (f64::from_bits(qb[0]), f64::from_bits(qb[1])));
@@ -142,6 +142,12 @@ pub fn witness_cases() -> Vec<Case> {
       let (clon, clat) = (cv[1].atan2(cv[0]).rem_euclid(TWO_PI), cv[2].atan2((cv[0] * cv[0] + cv[1] * cv[1]).sqrt()));
       v.push(Case::new("bsd").f("r", w * (1.0 + sgn * m)).f("lon", clon).f("lat", clat).f("qlon", q.0).f("qlat", q.1).u("wd", d as u64).s("cls", if sgn > 0.0 { "witness-above" } else { "witness-below" }));
     } }
+    // adaptive: the largest radius for which the function answers depth d (threshold located by bisection), centre 1e-6 W behind p:
+    // the cone stays in the block iff threshold - 1e-6 W <= W, i.e. iff the tabulated limit does not exceed the true width
+    { let delta = 1e-6 * w; let (sd, cd) = f64::sin_cos(delta);
+      let cv = [vp[0] * cd - t[0] * sd, vp[1] * cd - t[1] * sd, vp[2] * cd - t[2] * sd];
+      let (clon, clat) = (cv[1].atan2(cv[0]).rem_euclid(TWO_PI), cv[2].atan2((cv[0] * cv[0] + cv[1] * cv[1]).sqrt()));
+      v.push(Case::new("bsd").f("r", thr[d as usize] * (1.0 - 1e-9)).f("lon", clon).f("lat", clat).f("qlon", q.0).f("qlat", q.1).u("wd", d as u64).s("cls", "witness-adaptive")); }
   }
   v
 }
